@@ -39,6 +39,9 @@ def direct(kind, d):
         if isinstance(v, list):
             v.append("injected")
         elif isinstance(v, dict):
+            for vs in v.values():
+                if isinstance(vs, list):
+                    vs.append("injected")      # the value lists inside the extensions, too
             v["INJECTED"] = ["x"]
     try:
         again = PS.CLS[kind].from_string(text)
@@ -47,6 +50,19 @@ def direct(kind, d):
     if PS.def_to_json(again) != want:
         return {"key": None, "what": "from_string(str(d)) differs from d after an earlier parse result of the same text was extended by its caller "
                 "(parse results are shared)", "kind": kind, "text": text, "def": want, "parsed": PS.def_to_json(again)}
+    # ONE definition object printed, edited in place through its lists, printed again: the text is that of its current value
+    import copy
+    import random
+
+    import mutate
+
+    d2 = copy.deepcopy(d)
+    str(d2)
+    if mutate.edit_lists(d2, random.Random(len(text)), "dup"):
+        fresh = copy.deepcopy(d2)
+        if str(d2) != str(fresh):
+            return {"key": None, "what": "a definition object that was printed, edited in place through its lists and printed again does not print its "
+                    "current value", "kind": kind, "first_text": text, "text": str(d2), "fresh_object_text": str(fresh), "def": PS.def_to_json(fresh)}
     return None
 
 
